@@ -10,7 +10,7 @@
      cinput   = 0 path | 1 tref      carg    = 0 | 1 path (File) | 2 path (program, absolute)
                                                | 3 (program, no absolute path) | 4 tref
      btarget  = kind(0 exe,1 static,2 shared) out sym, list bsrc, list tref (link_with),
-                list tref (link_whole), list dep
+                list tref (link_whole), list tref (objects: extract_all_objects), list dep
      bsrc     = 0 src obj | 1 tref, list obj | 2 genlist
      genlist  = carg (exe), list tref (depends), list genitem
      genitem  = input, list gout, list obj
@@ -77,8 +77,8 @@ Fixpoint p_dep (fuel : nat) : P dep :=
   end.
 Definition p_bt (fuel : nat) : P btarget :=
   k <- p_num ;; o <- p_num ;; y <- p_num ;; s <- p_list p_bsrc ;;
-  l <- p_list p_nat ;; w <- p_list p_nat ;; d <- p_list (p_dep fuel) ;;
-  ret (mkBT (tkind_of k) o y s l w d).
+  l <- p_list p_nat ;; w <- p_list p_nat ;; x <- p_list p_nat ;; d <- p_list (p_dep fuel) ;;
+  ret (mkBT (tkind_of k) o y s l w x d).
 Definition p_decl (fuel : nat) : P decl :=
   tag <- p_num ;;
   if tag =? 0 then c <- p_ct ;; ret (DCustom c)
